@@ -67,7 +67,8 @@ def _trait_arg_of(facts, b, trait):
 
 
 def _strip(ty):
-    return (ty or '').replace('packing::', '').strip()
+    import re
+    return re.sub(r"'[A-Za-z_][A-Za-z0-9_]*", "'_", (ty or '').replace('packing::', '').strip())
 
 
 def lower_forwarders(facts):
@@ -92,7 +93,7 @@ def lower_forwarders(facts):
                 cands = [x for x in from_str if _strip(_self_ty_of(facts, x)) == g[0]]
             elif last == 'into' and (fc.get('trait') or '').endswith('convert::Into') and len(g) >= 2:
                 cands = [x for x in froms if _strip(_self_ty_of(facts, x)) == g[1] and
-                         _strip(_trait_arg_of(facts, x, 'From')) in (g[0], g[0].replace("'_", "'a"))]
+                         _strip(_trait_arg_of(facts, x, 'From')) == g[0]]
             elif last == 'try_into' and (fc.get('trait') or '').endswith('convert::TryInto') and len(g) >= 2:
                 cands = [x for x in try_froms if _strip(_self_ty_of(facts, x)) == g[1] and _strip(_trait_arg_of(facts, x, 'TryFrom')) == g[0]]
             elif last in ('sum', 'product') and (fc.get('trait') or '').endswith('iter::Iterator') and len(g) >= 2:
